@@ -110,6 +110,11 @@ class Builder(object):
             return threading.Condition(self.build(r['__cond__']))
         if '__class__' in r:
             return resolve_exc(r['__class__'])
+        if '__logger__' in r:
+            import logging
+            lg = logging.getLogger(r['__logger__'])
+            lg.setLevel(logging.CRITICAL + 1)
+            return lg
         if '__lambda__' in r:
             return eval(r['__lambda__'], dict(self.spec_ns))
         if '__func__' in r:
